@@ -63,9 +63,9 @@ MAX_REPORTS = 6           # failing inputs reported before the stream stops
 RATIO_MIN = 1000          # statement: n² ≥ 1000 × factor storage
 
 # Defects of /repo found by this check and not yet decided (see docs/BUILDER_NOTES.md): none for C19.
-# (Met on the way, outside C19: inv / solve of a Product that contains a ScalarMul raises
-#  "AssertionError: There is a device mismatch in Product" on the NumPy backend — those calls are not scheduled.)
 PROVISIONAL_KNOWN = {}
+MEMORY_CAP = 3 << 30      # bytes of address space above the current size while the measured stream runs: a dense n × n array of a
+                          # LARGE zoo operator (>= 3.2 GB) then fails with MemoryError at once — and is judged as the densification it is
 
 
 # ------------------------------------------------------------------------------------------
@@ -289,96 +289,117 @@ def tiny(e, n=None):
 # ------------------------------------------------------------------------------------------
 # the zoo
 # ------------------------------------------------------------------------------------------
-def zoo(ctx, rnd=0):
+# Size classes of the zoo (inclusive ranges the sizes are drawn from).  "small": the sizes of rounds 1-2 (a dense n × n array
+# still fits into memory, so a tree that densifies is caught cheaply and first).  "large" (round 3): factor sizes such that
+# itemsize × MODEL >= 4 × the fixed allowance (MODEL >= 131072 entries) for almost every call — there the comparison is about
+# the Lean model (`peakMM`, `ruleCost` with its constants `cf` / `ownW`), not about the allowance — while n² >= 1000 × factor
+# storage still holds (checked for every entry).
+SIZES = {
+    "small": {"k2": (46, 50), "k3": (11, 13), "k4": (5, 7), "kd": (46, 50), "eyeK": ((38, 42), (54, 58)),
+              "bd": ((36, 42), (20, 26), (28, 32), (40, 48)), "s2": (56, 60), "bd2": ((36, 40), (40, 44), (20, 24), (60, 66)),
+              "mixq": ((20, 26), (28, 34)), "mixm": ((24, 28), (20, 24), (16, 20), (20, 24), (16, 20)),
+              "k2b": (78, 82), "k2c": (64, 68), "line": (3100, 3500), "perm": (3100, 3500), "house": (3100, 3500),
+              "sparse": (6200, 6600), "plain": (2500, 3500)},
+    "large": {"k2": (222, 230), "k3": (32, 34), "k4": (14, 15), "kd": (222, 230), "eyeK": ((180, 190), (250, 260)),
+              "bd": ((120, 130), (70, 80), (120, 128), (200, 220)), "s2": (222, 230), "bd2": ((120, 130), (125, 135), (70, 80), (210, 230)),
+              "mixq": ((70, 80), (90, 100)), "mixm": ((80, 90), (80, 90), (70, 80), (80, 90), (70, 80)),
+              "k2b": (222, 230), "k2c": (222, 230), "line": (20000, 22000), "perm": (70000, 72000), "house": (40000, 42000),
+              "sparse": (36000, 38000), "plain": (135000, 145000)},
+}
+MODEL_DOMINATED = 4       # a record is "model dominated" when itemsize × MODEL >= 4 × allowance
+
+
+def zoo(ctx, rnd=0, scale="small"):
     """list of dict(expr, calls) — sizes drawn from random.Random(seed); every operator has
     n² ≥ 1000 × factor storage (checked)"""
-    rng = random.Random(ctx.seed * 7919 + 19 + 104729 * rnd)
-    big = ctx.thorough
+    rng = random.Random(ctx.seed * 7919 + 19 + 104729 * rnd + (0 if scale == "small" else 15485863))
+    big = ctx.thorough and scale == "small"      # the fixed power-of-two sizes of the thorough tier
+    sz = SIZES[scale]
     Z = []
 
     def d(m, fl="gen"):
         return ("dense", m, fl)
 
     def add(e, *flags):
-        Z.append({"expr": e, "flags": set(flags)})
+        Z.append({"expr": e, "flags": set(flags), "scale": scale})
 
-    def r(a, b):
+    def r(a, b=None):
+        a, b = a if b is None else (a, b)
         return rng.randint(a, b)
 
     # Kronecker, 2–4 factors (general and PSD factors)
-    m2 = [(r(46, 52), r(46, 52)), (64, 64)] if big else [(r(46, 50), r(46, 50))]
+    m2 = [(r(sz["k2"]), r(sz["k2"]))] + ([(64, 64)] if big else [])
     for a, b in m2:
         add(("kron", d(a), d(b)), "mm", "inv", "diag", "plu")
         add(("kron", d(a, "psd"), d(b, "psd")), "mm", "rmm", "inv", "psd", "diag", "pow", "chol", "plu")
-    m3 = [(r(11, 14), r(11, 14), r(11, 14)), (16, 16, 16)] if big else [(r(11, 13), r(11, 13), r(11, 13))]
+    m3 = [(r(sz["k3"]), r(sz["k3"]), r(sz["k3"]))] + ([(16, 16, 16)] if big else [])
     for a, b, c in m3:
         add(("kron", d(a), d(b), d(c)), "mm", "inv", "diag", "plu")
         add(("kron", d(a, "psd"), d(b, "psd"), d(c, "psd")), "mm", "rmm", "inv", "psd", "diag", "pow", "chol")
-    m4 = [(r(5, 8), r(5, 8), r(5, 8), r(5, 8)), (8, 8, 8, 8)] if big else [(r(5, 7), r(5, 7), r(5, 7), r(5, 7))]
+    m4 = [(r(sz["k4"]), r(sz["k4"]), r(sz["k4"]), r(sz["k4"]))] + ([(8, 8, 8, 8)] if big else [])
     for a, b, c, e4 in m4:
         add(("kron", d(a), d(b, "psd"), d(c), d(e4, "psd")), "mm", "inv", "diag", "plu")
-        if big:
+        if big or scale == "large":
             add(("kron", d(a, "psd"), d(b, "psd"), d(c, "psd"), d(e4, "psd")), "mm", "rmm", "inv", "psd", "diag", "pow", "chol")
     # Kronecker with Diagonal / Identity factors
-    a = r(46, 50)
-    add(("kron", d(a), ("diag", r(46, 50))), "mm", "inv", "diag")
-    add(("kron", ("eye", r(38, 42)), d(r(54, 58), "psd")), "mm", "inv", "diag", "chol")
+    a = r(sz["kd"])
+    add(("kron", d(a), ("diag", r(sz["kd"]))), "mm", "inv", "diag")
+    add(("kron", ("eye", r(sz["eyeK"][0])), d(r(sz["eyeK"][1]), "psd")), "mm", "inv", "diag", "chol")
     # KronSum
-    a, b = (r(46, 50), r(46, 50))
+    a, b = (r(sz["k2"]), r(sz["k2"]))
     add(("kronsum", d(a), d(b)), "mm", "diag", "exp")
     add(("kronsum", d(a, "sym"), d(b, "sym")), "mm", "diag", "exp", "sym")
-    a, b, c = r(11, 13), r(11, 13), r(11, 13)
+    a, b, c = r(sz["k3"]), r(sz["k3"]), r(sz["k3"])
     add(("kronsum", d(a), d(b), d(c)), "mm", "diag", "exp")
     if big:
         add(("kronsum", d(64), d(64)), "mm", "diag", "exp")
         add(("kronsum", d(8), d(8), d(8), d(8)), "mm", "diag", "exp")
     # BlockDiag with multiplicities
-    a, b = r(36, 42), r(20, 26)
-    add(("bdiag", [d(a), d(b)], [r(28, 32), r(40, 48)]), "mm", "inv", "diag", "plu")
-    add(("bdiag", [d(a, "psd"), d(b, "psd")], [r(28, 32), r(40, 48)]), "mm", "inv", "psd", "diag", "unary", "chol")
+    a, b = r(sz["bd"][0]), r(sz["bd"][1])
+    add(("bdiag", [d(a), d(b)], [r(sz["bd"][2]), r(sz["bd"][3])]), "mm", "inv", "diag", "plu")
+    add(("bdiag", [d(a, "psd"), d(b, "psd")], [r(sz["bd"][2]), r(sz["bd"][3])]), "mm", "inv", "psd", "diag", "unary", "chol")
     if big:
         add(("bdiag", [d(32, "psd"), d(16, "psd"), ("diag", 64)], [64, 120, 2]), "mm", "inv", "psd", "diag", "unary", "chol")
     # sums with Diagonal / ScalarMul / Identity (a Diagonal member stores n numbers: larger factors)
-    a, b = r(56, 60), r(56, 60)
+    a, b = r(sz["s2"]), r(sz["s2"])
     add(("sum", ("kron", d(a), d(b)), ("diag", a * b)), "mm", "diag")
     add(("sum", ("kronsum", d(a), d(b)), ("scalar", 0.5, a * b), ("eye", a * b)), "mm", "diag")
-    m1, q1, m2_, q2 = r(36, 40), r(40, 44), r(20, 24), r(60, 66)
+    m1, q1, m2_, q2 = r(sz["bd2"][0]), r(sz["bd2"][1]), r(sz["bd2"][2]), r(sz["bd2"][3])
     add(("sum", ("bdiag", [d(m1), d(m2_)], [q1, q2]), ("diag", m1 * q1 + m2_ * q2)), "mm", "diag")
     # products with Diagonal / ScalarMul / Identity, and of two Kronecker products
-    a, b = r(56, 60), r(56, 60)
+    a, b = r(sz["s2"]), r(sz["s2"])
     add(("prod", ("diag", a * b), ("kron", d(a), d(b))), "mm", "inv")
-    # (inv / solve of a Product containing a ScalarMul raises "device mismatch" on the NumPy backend —
-    #  inv(ScalarMul) passes device=A.c.device == "cpu"; a C06 matter, not scheduled here; logdet is)
-    add(("smul", 2.5, ("kron", d(a, "psd"), d(b, "psd"))), "mm", "logdet")
-    k3 = (r(11, 13), r(11, 13), r(11, 13))
+    # inv / solve of a Product that contains a ScalarMul (c * A, D @ D @ cI): scheduled since /repo 9078f51 repaired the device
+    # of inv(ScalarMul) (before, these calls raised "There is a device mismatch in Product" on the NumPy backend)
+    add(("smul", 2.5, ("kron", d(a, "psd"), d(b, "psd"))), "mm", "inv")
+    k3 = (r(sz["k3"]), r(sz["k3"]), r(sz["k3"]))
     add(("prod", ("kron", d(k3[0]), d(k3[1]), d(k3[2])), ("kron", d(k3[0]), d(k3[1]), d(k3[2]))), "mm", "inv")
     add(("prod", ("bdiag", [d(m1), d(m2_)], [q1, q2]), ("diag", m1 * q1 + m2_ * q2)), "mm", "inv")
-    add(("prod", ("diag", a * b), ("diag", a * b), ("scalar", 3.0, a * b)), "mm", "logdet")
+    add(("prod", ("diag", a * b), ("diag", a * b), ("scalar", 3.0, a * b)), "mm", "inv")
     add(("prod", ("diag", a * b), ("diag", a * b)), "mm", "rmm", "inv")
     # round 2: the leaf kinds whose cost model was proved about but never compared with running code — Triangular, Sparse,
     # Tridiagonal, Permutation, Householder — as Kronecker factors, as blocks, in sums / products, and on their own
-    a, b = r(46, 50), r(46, 50)
+    a, b = r(sz["k2"]), r(sz["k2"])
     add(("kron", ("tri", a), d(b)), "mm", "inv")
     add(("kron", ("perm", a), d(b, "psd")), "mm", "inv")
     add(("kron", ("tridiag", a), d(b)), "mm")
     add(("kron", ("sparse", a), d(b), ("house", 3)) if big else ("kron", ("sparse", a), d(b)), "mm")
     add(("kron", ("house", a), ("tri", b)), "mm")
-    q = [r(20, 26), r(20, 26), r(28, 34), r(20, 26), r(20, 26)]
+    q = [r(sz["mixq"][0]), r(sz["mixq"][0]), r(sz["mixq"][1]), r(sz["mixq"][0]), r(sz["mixq"][0])]
     add(("bdiag", [("tri", q[0]), ("tridiag", q[1]), ("perm", q[2]), ("sparse", q[3]), ("house", q[4])],
-         [r(24, 28), r(20, 24), r(16, 20), r(20, 24), r(16, 20)]), "mm")
-    a, b = r(78, 82), r(78, 82)
+         [r(x) for x in sz["mixm"]]), "mm")
+    a, b = r(sz["k2b"]), r(sz["k2b"])
     add(("sum", ("kron", d(a), d(b)), ("tridiag", a * b), ("perm", a * b)), "mm")
-    a, b = r(64, 68), r(64, 68)
+    a, b = r(sz["k2c"]), r(sz["k2c"])
     add(("prod", ("perm", a * b), ("kron", ("tri", a), d(b)), ("house", a * b)), "mm")
-    a, b = r(56, 60), r(56, 60)
+    a, b = r(sz["s2"]), r(sz["s2"])
     add(("prod", ("perm", a * b), ("kron", ("tri", a), d(b))), "mm", "inv")
-    nn = 4096 if big else r(3100, 3500)
-    add(("tridiag", nn), "mm")
-    add(("perm", nn), "mm")
-    add(("house", nn), "mm")
-    add(("sparse", 8192 if big else r(6200, 6600)), "mm")     # stores 6 numbers per row: n ≥ 6000 for n² ≥ 1000 × storage
+    add(("tridiag", 4096 if big else r(sz["line"])), "mm")
+    add(("perm", 4096 if big else r(sz["perm"])), "mm")
+    add(("house", 4096 if big else r(sz["house"])), "mm")
+    add(("sparse", 8192 if big else r(sz["sparse"])), "mm")     # stores 6 numbers per row: n ≥ 6000 for n² ≥ 1000 × storage
     # the plain parametrised kinds
-    nn = 4096 if big else r(2500, 3500)
+    nn = 4096 if big else r(sz["plain"])
     add(("diag", nn), "mm", "rmm", "inv", "diag", "unary", "chol", "plu")
     add(("eye", nn), "mm", "rmm", "inv", "diag", "unary", "chol", "plu")
     add(("scalar", 1.5, nn), "mm", "inv", "diag", "unary", "chol", "plu")
@@ -768,6 +789,47 @@ def failing_theorems(gate_err):
     return names
 
 
+class memory_cap:
+    """while a measured call runs the address space of this process may grow by MEMORY_CAP at most: a call that asks for a
+    dense n × n array of a large zoo operator fails at once with MemoryError (and is judged as a densification) instead of
+    filling the machine.  Restored on exit (the Lean driver runs outside)."""
+
+    def __enter__(self):
+        self.old = None
+        try:
+            import resource
+            with open("/proc/self/statm") as fh:
+                cur = int(fh.read().split()[0]) * os.sysconf("SC_PAGE_SIZE")
+            self.old = resource.getrlimit(resource.RLIMIT_AS)
+            hard = self.old[1]
+            soft = cur + MEMORY_CAP
+            if hard != resource.RLIM_INFINITY:
+                soft = min(soft, hard)
+            resource.setrlimit(resource.RLIMIT_AS, (soft, hard))
+        except Exception:  # noqa: BLE001  (no /proc, no resource module: run without the cap)
+            self.old = None
+        return self
+
+    def __exit__(self, *exc):
+        if self.old is not None:
+            import resource
+            resource.setrlimit(resource.RLIMIT_AS, self.old)
+        return False
+
+
+def memory_error_shape(err):
+    """numpy: "Unable to allocate 18.8 GiB for an array with shape (50176, 50176) and data type float64" -> entries requested"""
+    import re
+    m = re.search(r"array with shape \(([\d, ]+)\)", err or "")
+    if not m:
+        return None
+    dims = [int(x) for x in m.group(1).replace(" ", "").split(",") if x]
+    p = 1
+    for x in dims:
+        p *= x
+    return dims, p
+
+
 def judge(z, cname, call, pres, res, lean, n, b):
     """IMMEDIATE judgement (no model needed): -> (status, detail): status ∈ ok | violation | error.
     A call that materialises an array with ≥ n²/4 entries, or whose peak reaches a quarter of the dense n × n matrix, is a
@@ -783,6 +845,12 @@ def judge(z, cname, call, pres, res, lean, n, b):
               "densified": [[w, list(s)] for w, s in res["dens"]][:12]}
     if res["err"]:
         detail["error"] = res["err"]
+        req = memory_error_shape(res["err"]) if "MemoryError" in res["err"] else None
+        if req and req[1] * 4 >= n * n:
+            detail["densified_shape"] = req[0]
+            detail["why"] = (f"the call asked for an array of shape {tuple(req[0])} (≥ n²/4 entries, n = {n}) and failed with MemoryError "
+                             f"under the address-space cap of the check, during a call that has a structural rule")
+            return "violation", detail
         return "error", detail
     if big:
         detail["densified_shape"] = list(big[0][1])
@@ -1166,10 +1234,12 @@ def run(ctx):
             if rec["status"] == "violation":
                 common.violation(ctx, dict(replay_payload(rec), flags=sorted(z["flags"]), replay_of=ctx.replay))
             return
-        Z = zoo(ctx)
-        if ctx.thorough:   # two more draws of the sizes
-            Z += zoo(ctx, 1) + zoo(ctx, 2)
-            Z.sort(key=lambda z: z["n"])
+        Z = zoo(ctx) + zoo(ctx, 0, "large")
+        if ctx.thorough:   # two more draws of the small sizes, one more of the large ones
+            Z += zoo(ctx, 1) + zoo(ctx, 2) + zoo(ctx, 1, "large")
+        Z.sort(key=lambda z: z["n"])      # small dimensions first: a densifying tree is caught cheaply, and its larger siblings
+        failed_small = set()               # (same structure, same call) are then not run at all (`skipped_after_smaller_failure`)
+        skipped_siblings = 0
         cases = []
         for zi, z in enumerate(Z):
             for b in BS:
@@ -1210,11 +1280,17 @@ def run(ctx):
                 for pres, _f in call["algs"](z):
                     if reported >= MAX_REPORTS:
                         break
-                    rec = run_one(ctx, T, m, S, fam, probe, CT, z, cname, pres, lean, bld, stats)
+                    if (skeleton(e), cname) in failed_small:
+                        skipped_siblings += 1
+                        continue
+                    with memory_cap():
+                        rec = run_one(ctx, T, m, S, fam, probe, CT, z, cname, pres, lean, bld, stats)
                     rec["flags"] = sorted(z["flags"])
                     rec["zi"] = zi
+                    rec["scale"] = z.get("scale", "small")
                     records.append({k: v for k, v in rec.items() if k != "expr"} | {"expr": e})
                     if rec["status"] == "violation":
+                        failed_small.add((skeleton(e), cname))
                         common.violation(ctx, dict(replay_payload(rec), flags=sorted(z["flags"])))
                         reported += 1
             for k in ("_A", "_V", "_tA", "_tV"):
@@ -1282,7 +1358,8 @@ def run(ctx):
         "rule": ("distinct = (operator structure without sizes, public call, algorithm presence) triples measured; non-trivial = the "
                  "operator has n ≥ 256 (all have n² ≥ 1000 × factor storage, checked when the zoo is built): a dense n × n "
                  "materialisation (n² entries) is far outside the judged bound itemsize × [Op.peakMM | Op.ruleCost + Op.peakMM(result)] + 256 KiB — the measured factor is reported as dense_over_bound_min"),
-        "operators": [{"operator": show(z["expr"]), "n": z["n"], "factor_storage": z["factor_storage"], "n2_over_storage": round(z["ratio"])}
+        "operators": [{"operator": show(z["expr"]), "scale": z.get("scale"), "n": z["n"], "factor_storage": z["factor_storage"],
+                       "n2_over_storage": round(z["ratio"])}
                       for z in (Z if not ctx.replay else [])],
         "calls": sorted(CT),
         "peak_over_model_entries": {"max": ratios[-1] if ratios else None, "median": ratios[len(ratios) // 2] if ratios else None,
@@ -1290,12 +1367,20 @@ def run(ctx):
                                     "note": "raw ratio measured peak / (itemsize × Lean bound), WITHOUT the 256 KiB allowance; above 1 only where the bound is smaller than the allowance"},
         "max_ratio_by_call": {k: max(v) for k, v in sorted(by_call.items())},
         "model_dominated": (lambda big: {
-            "rule": "records whose Lean bound is at least 4 × the fixed allowance (256 KiB): there the comparison is about the model, not the allowance",
-            "count": len(big), "max_peak_over_model": max((r["ratio_raw"] for r in big), default=None),
+            "rule": f"records whose Lean bound is at least {MODEL_DOMINATED} × the fixed allowance (256 KiB), i.e. itemsize × MODEL >= 1 MiB: there "
+                    "the comparison is about the model (peakMM, ruleCost with cf / ownW), not the allowance; the zoo's `large` size class is "
+                    "dimensioned for this",
+            "count": len(big), "of_records": len(ok), "fraction": round(len(big) / max(1, len(ok)), 3),
+            "by_scale": {sc: {"records": sum(1 for r in ok if r.get("scale") == sc),
+                              "model_dominated": sum(1 for r in big if r.get("scale") == sc)} for sc in ("small", "large")},
+            "by_judgement": {k: sum(1 for r in big if r.get("model_how") == k) for k in sorted({r.get("model_how") for r in big})},
+            "max_peak_over_model": max((r["ratio_raw"] for r in big), default=None),
             "median_peak_over_model": sorted(r["ratio_raw"] for r in big)[len(big) // 2] if big else None,
+            "min_peak_over_model": min((r["ratio_raw"] for r in big), default=None),
             "top": [{k: r[k] for k in ("operator", "call", "alg", "peak_bytes", "model_entries", "model_how", "ratio_raw")}
                     for r in sorted(big, key=lambda r: -r["ratio_raw"])[:5]]})(
-            [r for r in ok if r["itemsize"] * r["model_entries"] >= 4 * (PY_ALLOWANCE + NUMPY_BUFFERS)]),
+            [r for r in ok if r["itemsize"] * r["model_entries"] >= MODEL_DOMINATED * (PY_ALLOWANCE + NUMPY_BUFFERS)]),
+        "skipped_after_smaller_failure": skipped_siblings if not ctx.replay else 0,
         "dense_over_bound_min": round(min((r["dense_n2_bytes"] / r["bound_bytes"] for r in records if r.get("bound_bytes")), default=0), 1),
         "judged_by": {k: sum(1 for r in records if r.get("model_how") == k) for k in sorted({r.get("model_how") for r in records if r.get("model_how")})},
         "result_classes_outside_shape_language": sorted({r["result_class"] for r in records if r.get("applied") and r.get("result_tree") is None
